@@ -135,6 +135,20 @@ pub enum RStep {
     SetCad,
 }
 
+/// Signature attribution of a register field.
+pub struct Attr {
+    pub addr: u8,
+    pub bits: u8,
+    pub op: &'static str,
+    pub class: String,
+    pub label: Option<&'static str>,
+    pub xor: bool,
+}
+
+fn attr(addr: u8, bits: u8, op: &'static str, class: String) -> Attr {
+    Attr { addr, bits, op, class, label: None, xor: true }
+}
+
 pub struct Scenario {
     pub op: &'static str,
     pub class: String,
@@ -148,7 +162,7 @@ pub struct Scenario {
     /// (address, bits): lora-phy must leave these bits as in the prior file (fields of a
     /// register whose other fields the operation governs and that the reference keeps in a
     /// shadow copy instead of on the chip).
-    pub preserve: Vec<(u8, u8)>,
+    pub preserve: Vec<(u8, u8, &'static str, String)>,
     /// Write-1-to-clear values lora-phy is documented to push at RegIrqFlags in this flow.
     pub irq_clears: Vec<u8>,
     pub rust_may_reject: Option<&'static str>,
@@ -156,7 +170,7 @@ pub struct Scenario {
     /// Signature attribution: a difference whose lowest register is `addr` is reported under
     /// the operation that governs that register with that operation's minimal class, so one
     /// defect yields the same signature whether it is seen alone or inside a flow.
-    pub attrib: Vec<(u8, &'static str, String)>,
+    pub attrib: Vec<Attr>,
     /// Name used instead of the register number (multi-byte fields whose lowest differing
     /// byte depends on the value).
     pub reg_label: Option<&'static str>,
@@ -434,15 +448,16 @@ pub fn compare(col: &mut Collector, sc: &Scenario) {
     let mut emitted: Vec<String> = Vec::new();
     for a in &diff {
         let x = (o.regs[*a as usize] ^ rf.regs[*a as usize]) & sc.mask[*a as usize];
-        let (sop, scls) = match sc.attrib.iter().find(|t| t.0 == *a) {
-            Some((_, op, cls)) => (*op, cls.as_str()),
-            None => (sc.op, sc.sig_class.as_str()),
+        let at = sc.attrib.iter().find(|t| t.addr == *a && t.bits & x != 0);
+        let (sop, scls, label, with_xor) = match at {
+            Some(t) => (t.op, t.class.as_str(), t.label, t.xor),
+            None => (sc.op, sc.sig_class.as_str(), sc.reg_label, sc.sig_xor),
         };
-        let reg = match sc.reg_label {
+        let reg = match label {
             Some(l) => l.to_string(),
             None => format!("reg{:02x}", a),
         };
-        let sig = if sc.sig_xor {
+        let sig = if with_xor {
             format!("C13|sx127x/{}|{}|{}:{} xor={:02x}", chip, sop, scls, reg, x)
         } else {
             format!("C13|sx127x/{}|{}|{}:{}", chip, sop, scls, reg)
@@ -483,13 +498,13 @@ pub fn compare(col: &mut Collector, sc: &Scenario) {
         );
     }
     // fields that must survive
-    for (a, bits) in &sc.preserve {
+    for (a, bits, pop, pcls) in &sc.preserve {
         let x = (o.regs[*a as usize] ^ sc.prior[*a as usize]) & bits;
         if x != 0 {
             col.violation(
-                &format!("C13|sx127x/{}|{}|{}:reg{:02x} clobbered={:02x}", chip, sc.op, sc.sig_class, a, x),
+                &format!("C13|sx127x/{}|{}|{}:reg{:02x} clobbered", chip, pop, pcls, a),
                 "lora-phy changed a register field the operation does not govern (the reference preserves it)",
-                detail(json!({"register": format!("{:02x}", a), "prior": format!("{:02x}", sc.prior[*a as usize]), "ours": format!("{:02x}", o.regs[*a as usize]), "must_preserve_bits": format!("{:02x}", bits)})),
+                detail(json!({"register": format!("{:02x}", a), "prior": format!("{:02x}", sc.prior[*a as usize]), "ours": format!("{:02x}", o.regs[*a as usize]), "must_preserve_bits": format!("{:02x}", bits), "clobbered_bits": format!("{:02x}", x)})),
             );
         }
     }
@@ -572,21 +587,68 @@ fn iq_mirror(iq: bool) -> Vec<RStep> {
     }
 }
 
-/// Minimal classes of the modulation-parameter registers.
-fn mod_attrib(m: &ModP) -> Vec<(u8, &'static str, String)> {
+/// Minimal classes of the modulation-parameter register fields.
+fn mod_attrib(chip: Chip7, m: &ModP) -> Vec<Attr> {
     let op = "SetModulationParams";
     let sfc = if sf_n(m.sf) == 6 { "SF6".to_string() } else { "SF7-12".to_string() };
-    vec![
-        (0x1D, op, format!("BW{}/CR4{}", bw_name(m.bw), 4 + cr_n(m.cr))),
-        (0x1E, op, format!("SF{}", sf_n(m.sf))),
-        (0x26, op, "-".to_string()),
-        (0x31, op, format!("{}/BW{}", sfc, bw_name(m.bw))),
-        (0x37, op, sfc),
-        (0x2F, op, format!("BW{}", bw_name(m.bw))),
-        (0x30, op, format!("BW{}", bw_name(m.bw))),
-        (0x36, op, format!("BW{}", bw_name(m.bw))),
-        (0x3A, op, format!("BW{}", bw_name(m.bw))),
-    ]
+    let bwc = format!("BW{}", bw_name(m.bw));
+    let mut v = match chip {
+        Chip7::Sx1276 => vec![
+            attr(0x1D, 0xF0, op, bwc.clone()),
+            attr(0x1D, 0x0E, op, format!("CR4{}", 4 + cr_n(m.cr))),
+            attr(0x26, 0x08, op, format!("LDRO{}", m.ldro)),
+            attr(0x26, 0xF7, op, "-".to_string()),
+        ],
+        Chip7::Sx1272 => vec![
+            attr(0x1D, 0xC0, op, bwc.clone()),
+            attr(0x1D, 0x38, op, format!("CR4{}", 4 + cr_n(m.cr))),
+            attr(0x1D, 0x01, op, format!("LDRO{}", m.ldro)),
+        ],
+    };
+    v.extend([
+        attr(0x1E, 0xF0, op, format!("SF{}", sf_n(m.sf))),
+        attr(0x1E, 0x08, op, "-".to_string()),
+        attr(0x31, 0x7F, op, sfc.clone()),
+        attr(0x31, 0x80, op, bwc.clone()),
+        attr(0x37, 0xFF, op, sfc),
+        attr(0x2F, 0xFF, op, bwc.clone()),
+        attr(0x30, 0xFF, op, bwc.clone()),
+        attr(0x36, 0xFF, op, bwc.clone()),
+        attr(0x3A, 0xFF, op, bwc),
+    ]);
+    v
+}
+
+/// Minimal classes of the packet-parameter register fields.
+fn pkt_attrib(chip: Chip7, p: &PktP) -> Vec<Attr> {
+    let op = "SetPacketParams";
+    let pre = if p.pre < 256 { "preamble<256" } else { "preamble>=256" };
+    let mut v = match chip {
+        Chip7::Sx1276 => vec![attr(0x1D, 0x01, op, format!("header={}", p.implicit as u8)), attr(0x1E, 0x04, op, format!("crc={}", p.crc as u8))],
+        Chip7::Sx1272 => vec![attr(0x1D, 0x04, op, format!("header={}", p.implicit as u8)), attr(0x1D, 0x02, op, format!("crc={}", p.crc as u8))],
+    };
+    v.extend([attr(0x20, 0xFF, op, pre.to_string()), attr(0x21, 0xFF, op, pre.to_string())]);
+    v.extend([attr(0x22, 0xFF, op, "payload-length".to_string()), attr(0x23, 0xFF, op, "payload-length".to_string())]);
+    for a in v.iter_mut().filter(|a| matches!(a.addr, 0x20..=0x23)) {
+        a.xor = false;
+    }
+    v.extend([attr(0x33, 0xFF, op, format!("iq={}", p.iq as u8)), attr(0x3B, 0xFF, op, format!("iq={}", p.iq as u8))]);
+    v
+}
+
+/// Registers written by the set-up steps shared by the flows.
+fn flow_attrib(irq: IrqMode) -> Vec<Attr> {
+    let mut v = vec![attr(0x11, 0xFF, "SetIrqMask", irq.name().to_string())];
+    for a in [0x39u8, 0x0E, 0x0F] {
+        v.push(Attr { addr: a, bits: 0xFF, op: "InitLoRa/BufferBase", class: "-".to_string(), label: None, xor: false });
+    }
+    v
+}
+
+fn freq_attrib(f: u32) -> Vec<Attr> {
+    (0x06u8..=0x08)
+        .map(|a| Attr { addr: a, bits: 0xFF, op: "SetRfFrequency", class: pll_round_class(f, 19).to_string(), label: Some("RegFrf"), xor: false })
+        .collect()
 }
 
 fn mod_class(m: &ModP) -> String {
@@ -661,7 +723,7 @@ pub fn sc_mod(cfg: Cfg, rng: &mut Prng, m: ModP, armed: bool) -> Scenario {
     let version = if armed { 0x12 } else { [0x11u8, 0x13, 0x22, 0x00][rng.below(4) as usize] };
     let p = prior(cfg.chip, rng, 0x81, version);
     let mut s = base("SetModulationParams", cfg, p, format!("{}/quirk{}", mod_class(&m), armed as u8), format!("BW{}", bw_name(m.bw)));
-    s.attrib = mod_attrib(&m);
+    s.attrib = mod_attrib(cfg.chip, &m);
     if sf_n(m.sf) == 5 {
         s.rust_may_reject = Some("sf5");
     }
@@ -704,6 +766,7 @@ pub fn sc_pkt(cfg: Cfg, rng: &mut Prng, p: PktP, from_sleep: bool) -> Scenario {
     let pr = prior(cfg.chip, rng, if from_sleep { 0x80 } else { 0x81 }, 0x12);
     let mut s = base("SetPacketParams", cfg, pr, pkt_class(&p), format!("h{}c{}i{}", p.implicit as u8, p.crc as u8, p.iq as u8));
     // the reference call is a composite: standby + both FIFO base addresses = 0 first
+    s.attrib = pkt_attrib(cfg.chip, &p);
     s.ours = vec![Step::Standby, Step::Base(0, 0), Step::Pkt(p)];
     s.refs = vec![RStep::Pkt(p)];
     s.refs.extend(iq_mirror(p.iq));
@@ -723,6 +786,7 @@ pub fn sc_sync(cfg: Cfg, rng: &mut Prng, w: u16) -> Option<Scenario> {
     }
     let pr = prior(cfg.chip, rng, 0x81, 0x12);
     let mut s = base("SetLoRaSyncWord", cfg, pr, format!("sync{:x}x", hi >> 4), "-".into());
+    s.sig_xor = false;
     s.ours = vec![Step::Sync(w)];
     s.refs = vec![RStep::SyncWord((hi & 0xF0) | (lo >> 4))];
     Some(s)
@@ -732,6 +796,7 @@ pub fn sc_fifo(cfg: Cfg, rng: &mut Prng, mut p: PktP, payload: Vec<u8>) -> Scena
     p.len = payload.len() as u8;
     let pr = prior(cfg.chip, rng, 0x81, 0x12);
     let mut s = base("WriteFifo", cfg, pr, format!("len{}/h{}", payload.len() / 16, p.implicit as u8), "-".into());
+    s.attrib = pkt_attrib(cfg.chip, &p);
     s.ours = vec![Step::Standby, Step::Base(0, 0), Step::Pkt(p), Step::Payload(payload.clone())];
     s.refs = vec![RStep::Pkt(p), RStep::WriteBuffer(payload)];
     s.refs.extend(iq_mirror(p.iq));
@@ -798,11 +863,11 @@ fn dio_rules(s: &mut Scenario, m: IrqMode) {
     match m {
         IrqMode::RxSingle | IrqMode::RxCont | IrqMode::RxDuty => {
             s.mask[0x40] = 0xC0;
-            s.preserve.push((0x40, 0x0C));
+            s.preserve.push((0x40, 0x0C, "SetIrqMask", m.name().to_string()));
         }
         _ => {
             s.mask[0x40] = 0xC0;
-            s.preserve.push((0x40, 0x3F));
+            s.preserve.push((0x40, 0x3F, "SetIrqMask", m.name().to_string()));
         }
     }
 }
@@ -822,7 +887,9 @@ pub fn sc_irq(cfg: Cfg, rng: &mut Prng, m: IrqMode) -> Scenario {
 pub fn sc_txflow(cfg: Cfg, rng: &mut Prng, mut p: PktP, payload: Vec<u8>, from_sleep: bool) -> Scenario {
     p.len = payload.len() as u8;
     let pr = prior(cfg.chip, rng, if from_sleep { 0x80 } else { 0x81 }, 0x12);
-    let mut s = base("TxStart", cfg, pr, format!("h{}c{}i{}/len{}", p.implicit as u8, p.crc as u8, p.iq as u8, payload.len() / 64), format!("iq={}", p.iq as u8));
+    let mut s = base("TxStart", cfg, pr, format!("h{}c{}i{}/len{}", p.implicit as u8, p.crc as u8, p.iq as u8, payload.len() / 64), "-".into());
+    s.attrib = pkt_attrib(cfg.chip, &p);
+    s.attrib.extend(flow_attrib(IrqMode::Tx));
     s.ours = vec![Step::Standby, Step::Base(0, 0), Step::Pkt(p), Step::Payload(payload.clone()), Step::Irq(IrqMode::Tx), Step::Tx];
     s.refs = vec![RStep::Pkt(p), RStep::WriteBuffer(payload), RStep::IrqMask(irq_policy(IrqMode::Tx)), RStep::ClearIrq, RStep::SetTx];
     pkt_masks(&mut s, &p, true);
@@ -847,10 +914,22 @@ pub fn sc_rxflow(cfg: Cfg, rng: &mut Prng, m: ModP, p: PktP, kind: RxKind) -> Sc
         cfg,
         pr,
         format!("{}/BW{}/iq{}/boost{}", kcls, bw_name(m.bw), p.iq as u8, cfg.rx_boost as u8),
-        format!("{}/iq={}", kcls, p.iq as u8),
+        "-".into(),
     );
     // registers governed by the set-up steps of the flow are attributed to those operations
-    s.attrib = mod_attrib(&m).into_iter().filter(|t| matches!(t.0, 0x26 | 0x37)).collect();
+    s.attrib = mod_attrib(cfg.chip, &m);
+    s.attrib.extend(pkt_attrib(cfg.chip, &p));
+    s.attrib.extend(freq_attrib(m.freq));
+    s.attrib.extend(flow_attrib(irq));
+    let kname = match kind {
+        RxKind::Single(_) => "single",
+        RxKind::Continuous => "cont",
+        RxKind::Duty(..) => "duty",
+    };
+    s.attrib.push(attr(0x01, 0xFF, "RxStart", kname.to_string()));
+    s.attrib.push(attr(0x0C, 0xFF, "RxStart", format!("boost{}", cfg.rx_boost as u8)));
+    s.attrib.push(attr(0x1E, 0x03, "RxStart", kcls.clone()));
+    s.attrib.push(Attr { addr: 0x1F, bits: 0xFF, op: "RxStart", class: kcls.clone(), label: None, xor: false });
     if matches!(kind, RxKind::Duty(..)) {
         s.rust_may_reject = Some("rx_duty_cycle_unsupported");
     }
@@ -904,6 +983,8 @@ pub fn sc_rxflow(cfg: Cfg, rng: &mut Prng, m: ModP, p: PktP, kind: RxKind) -> Sc
 pub fn sc_cadflow(cfg: Cfg, rng: &mut Prng, m: ModP) -> Scenario {
     let pr = prior(cfg.chip, rng, 0x81, 0x12);
     let mut s = base("CadStart", cfg, pr, format!("SF{}/boost{}", sf_n(m.sf), cfg.rx_boost as u8), "-".into());
+    s.attrib = flow_attrib(IrqMode::Cad);
+    s.attrib.push(attr(0x0C, 0xFF, "CadStart", format!("boost{}", cfg.rx_boost as u8)));
     s.ours = vec![Step::Irq(IrqMode::Cad), Step::Cad(m)];
     s.refs = vec![RStep::IrqMask(irq_policy(IrqMode::Cad)), RStep::ClearIrq, RStep::SetCad, RStep::Raw(0x0C, lna(cfg.rx_boost))];
     dio_rules(&mut s, IrqMode::Cad);
